@@ -261,12 +261,20 @@ def euclidean_feature_transform(input_array, sampling, ft):
     a = input_array
     cs = coords(a.shape)
     zero = [_cell_not(ctruth(c)) for c in a.cells]
+    def no_background():
+        # never reached on a tree where a non-empty mask has a non-empty border.  1-D: the compiled routine reports index -1 for every
+        # element (observed, scipy 1.x); anything decided through this is replayed on the real package.  n-D: not modelled.
+        if a.ndim != 1:
+            raise Unsupported("feature transform of an array without background")
+        for i in range(len(a.cells)):
+            ft._write(i, -1)
+        CALLS.append(("euclidean_feature_transform", {"shape": a.shape, "no_background": True}))
     if builtins.all(z is False for z in zero):
-        raise Unsupported("feature transform of an array without background")
+        return no_background()
     sy = [z for z in zero if z is not False]
     if not builtins.any(z is True for z in zero):
         if not ENG.branch(z3.Or(sy) if len(sy) > 1 else sy[0]):
-            raise Unsupported("feature transform of an array without background")
+            return no_background()
     ndim = a.ndim
     n = len(cs)
     assert ft.shape == (ndim,) + a.shape
